@@ -1,6 +1,6 @@
 """C17 — Static and dynamic analysis agree on the API skeleton (CPython referees signatures).
 
-Domain: generated importable modules/packages (vp/gen/c17_pkg.py): 1-5 modules, optional sub-package, acyclic
+Domain: generated importable modules/packages (vp/gen/c17_pkg.py): 1-10 modules, packages nested up to depth 3, acyclic
 intra-package imports of classes, functions, modules and plain values in every import form, functions of all five
 parameter kinds, classes with instance/static/class methods, properties, cached properties, nested classes, inheritance
 inside and across modules, literal-valued module/class attributes, docstrings of many whitespace shapes.
@@ -48,8 +48,8 @@ from vp.gen import c17_pkg as gen
 ID = "C17"
 LEVEL = "exploration"
 RULE = (
-    "Hypothesis-generated importable packages (JSON model -> files): 1-5 modules incl. optional sub-package, acyclic "
-    "intra-package imports (from/import/relative/as/wildcard) of classes, functions, modules and values, functions with all "
+    "Hypothesis-generated importable packages (JSON model -> files): 1-10 modules, packages nested up to pkg/sub/deep/core, acyclic "
+    "intra-package imports (from/import/relative level 1-4/as/wildcard) of classes, functions, modules and values, functions with all "
     "five parameter kinds/defaults/annotations, classes with instance/static/class methods, properties, cached properties, "
     "nested classes, single and multiple inheritance inside and across modules, generic classes (Generic[T], Protocol, Protocol[T] "
     "with a module-level TypeVar; subscripted Repo[int]/Repo[T] and unsubscripted subclasses and their multi-base descendants), "
